@@ -628,7 +628,8 @@ func c06ManyFiles(r *vlib.Run) {
 		query := "from CONS select g,count($line) group by g interval 2 outfile " + out
 		args := append(fl.ClientArgs(), "--logger", "stdout", "--logLevel", "error", "--noColor", "--files", filepath.Join(dir, "*.log"), "--query", query)
 		start := time.Now()
-		res := vlib.RunCmd(vlib.Cmd{Path: r.Bin("dmap"), Args: args, Env: fl.ClientEnv(), Dir: fl.Home, Watchdog: 240 * time.Second})
+		// (the client is idle while the server works its way through the files: hung only if the server is idle too)
+		res := vlib.RunCmd(vlib.Cmd{Path: r.Bin("dmap"), Args: args, Env: fl.ClientEnv(), Dir: fl.Home, Watchdog: 300 * time.Second, Busy: vlib.PidsBusy(fl.Servers[0].D.Pid())})
 		r.Eval(fmt.Sprintf("many-files|%d", nSmall+1))
 		r.Count("runs_over_more_files_than_the_aggregator_queue_holds", 1)
 		r.Max("many_files_run_longest_s", int(time.Since(start).Seconds()))
